@@ -82,7 +82,7 @@ func txHash(raw []byte) string { return hx(sha(raw)) }
 // payloadDigest identifies "the action and payload" of a voted message independently of the
 // application's sign-doc layout: the message with its vote and proposer blanked.
 func payloadDigest(msg sdk.Msg) string {
-	c := proto.Clone(msg)
+	c := protoCloneMsg(msg)
 	switch m := c.(type) {
 	case *bitcointypes.MsgNewBlockHashes:
 		m.Vote, m.Proposer = nil, ""
